@@ -33,7 +33,7 @@ SAVE_WHEN = {"NEVER": strax.SaveWhen.NEVER, "EXPLICIT": strax.SaveWhen.EXPLICIT,
 
 
 def names_of(node):
-    return node["names"] if node["kind"] == "multi" else [node["name"]]
+    return node["names"] if "names" in node else [node["name"]]
 
 
 def deps_of(node):
@@ -72,9 +72,31 @@ def kinds_of(spec):
             k[n["name"]] = k[n["deps"][0]]
         elif kind == "overlap":
             k[n["name"]] = k[n["dep"]] if n["mode"] == "rowsum" else "k_" + n["name"]
+        elif kind == "overlapm":
+            k[n["names"][0]] = k[n["dep"]]
+            k[n["names"][1]] = "k_" + n["names"][1]
         else:
             raise ValueError(kind)
     return k
+
+
+def _rowsum(t, e, v, wl, wr):
+    res = np.zeros(len(t), dtype=np.int64)
+    for i in range(len(t)):
+        near = (e > t[i] - wl) & (t < e[i] + wr)
+        res[i] = v[near].sum()
+    return res
+
+
+def _groups(t, e, v, g):
+    gt, ge, gv = [], [], []
+    for i in range(len(t)):
+        if gt and t[i] - ge[-1] <= g:
+            ge[-1] = max(ge[-1], e[i])
+            gv[-1] += v[i]
+        else:
+            gt.append(t[i]); ge.append(e[i]); gv.append(v[i])
+    return (np.array(gt, dtype=np.int64), np.array(ge, dtype=np.int64), np.array(gv, dtype=np.int64))
 
 
 def dtype_for(name):
@@ -150,6 +172,11 @@ def oracle(spec, config=None):
                         gt.append(t[i]); ge.append(e[i]); gv.append(v[i])
                 out[n["name"]] = make_rows(n["name"], np.array(gt, dtype=np.int64),
                                            np.array(ge, dtype=np.int64), np.array(gv, dtype=np.int64))
+        elif kind == "overlapm":
+            t, e, v = _tev(out[n["dep"]], n["dep"])
+            x, y = n["names"]
+            out[x] = make_rows(x, t, e, _rowsum(t, e, v, n["wl"], n["wr"]))
+            out[y] = make_rows(y, *_groups(t, e, v, n["g"]))
         elif kind == "downchunk":
             t, e, v = _tev(out[n["dep"]], n["dep"])
             out[n["name"]] = make_rows(n["name"], t, e, v + 7)
@@ -366,6 +393,26 @@ class _Overlap(_HarnessMixin, strax.OverlapWindowPlugin):
         return out
 
 
+class _OverlapM(_HarnessMixin, strax.OverlapWindowPlugin):
+    """Multi-output overlap-window plugin: x = per-row window sum, y = gap groups (new kind)."""
+
+    def get_window_size(self):
+        return (self.H_NODE["wl"], self.H_NODE["wr"])
+
+    def compute(self, start, end, **kw):
+        n = self.H_NODE
+        self._h_log(start, end, kw)
+        (arr,) = kw.values()
+        t, e, v = arr["time"], arr["endtime"], arr[f"v_{n['dep']}"]
+        x, y = n["names"]
+        res = {x: make_rows(x, t, e, _rowsum(t, e, v, n["wl"], n["wr"])),
+               y: make_rows(y, *_groups(t, e, v, n["g"]))}
+        f = self._h_fault_hit(kw)
+        if f is not None:
+            return byzantine(self, f, res, start, end, None)
+        return res
+
+
 class _DownChunk(_HarnessMixin, strax.DownChunkingPlugin):
     def compute(self, start, end, **kw):
         n = self.H_NODE
@@ -430,7 +477,8 @@ class _Recorder(_HarnessMixin, strax.Plugin):
 
 
 BASES = {"source": _Source, "rowmap": _RowMap, "filter": _Filter, "merge2": _Merge2, "multi": _Multi,
-         "loop": _Loop, "overlap": _Overlap, "downchunk": _DownChunk, "exhaust": _Exhaust,
+         "loop": _Loop, "overlap": _Overlap, "overlapm": _OverlapM, "downchunk": _DownChunk,
+         "exhaust": _Exhaust,
          "recorder": _Recorder}
 
 BYZANTINE_KINDS = ("wrong_dtype_bare", "wrong_dtype_chunk", "rows_outside", "wrong_data_type",
@@ -534,7 +582,7 @@ def build_classes(spec, log=None, fault=None, prefix="H"):
         }
         if opts.get("max_messages") is not None:
             attrs["max_messages"] = opts["max_messages"]
-        if n["kind"] == "multi":
+        if "names" in n:
             attrs["data_kind"] = immutabledict({d: kinds[d] for d in nm})
             attrs["dtype"] = {d: dtype_for(d) for d in nm}
             sw = opts.get("save_when", "ALWAYS")
